@@ -1,4 +1,4 @@
-package main
+package j2kblocks
 
 import (
 	"fmt"
@@ -8,7 +8,8 @@ import (
 	. "verif/harness/vhlib"
 )
 
-func init() { suites["C20"] = runC20 }
+// Register adds this area's suites.
+func Register(s Suites) { s.Add("C20", runC20) }
 
 func runC20(c *Ctx) {
 	c.R.Rule = "RCT: random int32 triples within +-2^28 (plus extremes), list lengths 0..64; non-trivial = not all zero; " +
@@ -59,16 +60,13 @@ func c20RCT(c *Ctx) {
 		y, cb, cr := colorspace.ApplyRCTToComponents(k.r, k.g, k.b)
 		// correspondence: model forward
 		got := c.M.Call("rct_fwd", Ints32(k.r), Ints32(k.g), Ints32(k.b))
+		in := map[string]interface{}{"r": k.r, "g": k.g, "b": k.b}
 		var parts []string
 		for j := range y {
 			parts = append(parts, fmt.Sprintf("%d,%d,%d", y[j], cb[j], cr[j]))
 		}
 		want := strings.Join(parts, ";")
-		c.R.Corr("rct_fwd")
-		if got != want {
-			c.R.Fail("corr", "rct_fwd", "rct_fwd", "model forward RCT differs from colorspace.ApplyRCTToComponents",
-				map[string]interface{}{"r": k.r, "g": k.g, "b": k.b, "impl": want, "model": got})
-		}
+		c.CorrEq("rct_fwd", "rct_fwd", got, want, in)
 		r2, g2, b2 := colorspace.ApplyInverseRCTToComponents(y, cb, cr)
 		got = c.M.Call("rct_inv", Ints32(y), Ints32(cb), Ints32(cr))
 		parts = parts[:0]
@@ -76,11 +74,7 @@ func c20RCT(c *Ctx) {
 			parts = append(parts, fmt.Sprintf("%d,%d,%d", r2[j], g2[j], b2[j]))
 		}
 		want = strings.Join(parts, ";")
-		c.R.Corr("rct_inv")
-		if got != want {
-			c.R.Fail("corr", "rct_inv", "rct_inv", "model inverse RCT differs from colorspace.ApplyInverseRCTToComponents",
-				map[string]interface{}{"y": y, "cb": cb, "cr": cr, "impl": want, "model": got})
-		}
+		c.CorrEq("rct_inv", "rct_inv", got, want, map[string]interface{}{"y": y, "cb": cb, "cr": cr})
 		// oracle: round trip on the implementation
 		c.R.Oracle("rct_roundtrip")
 		for j := range k.r {
